@@ -139,6 +139,35 @@ func concApps() []concApp {
 				app.Action = func() { *out = append(*out, "ACT", show("E", *e), show("a", *a), show("b", *b), show("q", *qq), show("X", *x)) }
 				return app
 			}},
+		// overlapping alternatives inside a repetition: which of them takes a token is fixed by the spec, not by the build
+		{"ovl", [][]string{{"x", "y", "z"}, {"x"}, {"x", "y"}, {"-k", "x", "y", "z", "w"}},
+			func(out *[]string) *cli.Cli {
+				app := cli.App("ovl", "")
+				app.Spec = "[-k] (SRC | DST)..."
+				k := app.BoolOpt("k", false, "")
+				src := app.StringsArg("SRC", nil, "")
+				dst := app.StringsArg("DST", nil, "")
+				app.Action = func() { *out = append(*out, "ACT", show("k", *k), show("SRC", *src), show("DST", *dst)) }
+				return app
+			}},
+		{"ovl2", [][]string{{"x", "y", "z"}, {"x", "y"}},
+			func(out *[]string) *cli.Cli {
+				app := cli.App("ovl2", "")
+				app.Spec = "[SRC | DST | X]..."
+				src := app.StringsArg("SRC", nil, "")
+				dst := app.StringsArg("DST", nil, "")
+				x := app.StringsArg("X", nil, "")
+				app.Action = func() { *out = append(*out, "ACT", show("SRC", *src), show("DST", *dst), show("X", *x)) }
+				return app
+			}},
+		// an application whose help cannot be printed (a sub command has an ill-formed spec): it panics, and the applications that
+		// print their help afterwards must not care
+		{"brokenhelp", [][]string{{"-h"}, {"bogus"}},
+			func(out *[]string) *cli.Cli {
+				app := cli.App("brokenhelp", "")
+				app.Command("child", "", func(c *cli.Cmd) { c.Spec = "[-z" })
+				return app
+			}},
 		{"lvlflag", [][]string{{"-l", "high"}, {"-l"}, {"-l=true", "x"}, {"x"}}, levelApp("lvlflag", true)},
 		{"lvlval", [][]string{{"-l", "high"}, {"-l"}, {"-l=high", "x"}, {"-lhigh"}}, levelApp("lvlval", false)},
 		// an option and an argument at one level: two conversion errors in one invocation, an option and an argument bound to the
